@@ -64,10 +64,32 @@ func (x *Exec) doCall(fr *frame, in *Instr, ops []lval) lval {
 		buf := x.concretize(av[0].(*smt.Term), "jmp_buf")
 		panic(&core.LongJmp{Buf: buf, Val: smt.Resize(av[1].(*smt.Term), 32, true)})
 	}
+	if f != nil && !f.IsDecl && x.Cfg.CheckCallABI && in.FnTy != nil {
+		if msg := abiMismatch(in, f); msg != "" {
+			x.ub("call-abi."+name, fmt.Sprintf("call of @%s with a different signature than its definition: %s", name, msg), smt.True)
+			x.M.EndPath("ub")
+		}
+	}
 	if f != nil && !f.IsDecl {
 		la := make([]lval, len(args))
 		for i, a := range args {
 			la[i] = clean(a.v)
+		}
+		if in.FnTy != nil && sameLeaves(in.FnTy, f.Ty) && sigString(in.FnTy) != sigString(f.Ty) {
+			// same convention, different grouping of the scalars into aggregates
+			var lv []Value
+			for i, a := range la {
+				lv = flattenVal(a.v, in.FnTy.Elems[i], lv)
+			}
+			for i, pt := range f.Ty.Elems {
+				la[i].v = buildVal(pt, &lv)
+			}
+			r := x.call(fr, f, la[:len(f.Ty.Elems)])
+			if in.Ty.Kind != TVoid && r.v != nil {
+				rl := flattenVal(r.v, f.Ty.Ret, nil)
+				r.v = buildVal(in.Ty, &rl)
+			}
+			return r
 		}
 		return x.call(fr, f, la)
 	}
@@ -251,4 +273,150 @@ func onlyUninit(t *smt.Term) bool {
 		return false
 	}
 	return rec(t) && n > 0
+}
+
+// abiMismatch compares the call site's function type and ABI attributes with
+// the callee's definition (LangRef: calling a function with a mismatched
+// signature is undefined behaviour; differing byval/sret/ext attributes make
+// caller and callee disagree about registers and stack).
+func abiMismatch(in *Instr, f *Func) string {
+	// first-class aggregates are passed and returned as the sequence of their
+	// scalar leaves (in registers / stack slots assigned one by one), so
+	// {double, float} and (double, float) are the same convention
+	ct, ft := in.FnTy, f.Ty
+	leaves := func(t *Type) string { return strings.Join(typeLeaves(t, nil), ",") }
+	attr := func(as []string, i int) string {
+		if i < len(as) {
+			return as[i]
+		}
+		return ""
+	}
+	// byval / sret / inreg change where the value lives: both sides must agree.
+	// signext / zeroext are promises of the side that produces the value
+	// (caller for arguments, callee for results) which the other side may rely on.
+	split := func(a string) (mem string, ext string) {
+		for _, f := range strings.Split(a, " ") {
+			switch {
+			case f == "signext" || f == "zeroext":
+				ext = f
+			case strings.HasPrefix(f, "byval") || strings.HasPrefix(f, "sret") || f == "inreg" || strings.HasPrefix(f, "align") || strings.HasPrefix(f, "(size"):
+				mem += f + " "
+			}
+		}
+		return
+	}
+	cm, ce := split(attr(in.Attrs, 0))
+	fm, fe := split(attr(f.Attrs, 0))
+	if a, b := leaves(ct.Ret), leaves(ft.Ret); a != b || cm != fm {
+		return fmt.Sprintf("result is (%s %s) at the call, (%s %s) in the definition", a, cm, b, fm)
+	}
+	_, _ = ce, fe // results: x86-64 callers re-extend narrow results themselves (confirmed natively), so no promise is compared
+	var ca, fa []string
+	for i, e := range ct.Elems {
+		if ft.VarArg && i >= len(ft.Elems) {
+			break
+		}
+		m, _ := split(attr(in.Attrs, i+1))
+		ca = append(ca, strings.TrimSpace(leaves(e)+" "+m))
+	}
+	for i, e := range ft.Elems {
+		m, _ := split(attr(f.Attrs, i+1))
+		fa = append(fa, strings.TrimSpace(leaves(e)+" "+m))
+	}
+	if a, b := strings.Join(ca, "; "), strings.Join(fa, "; "); a != b {
+		return fmt.Sprintf("arguments are (%s) at the call, parameters are (%s)", a, b)
+	}
+	for i := range ft.Elems {
+		_, de := split(attr(f.Attrs, i+1))
+		_, cae := split(attr(in.Attrs, i+1))
+		if de != "" && de != cae {
+			return fmt.Sprintf("parameter %d is %s in the definition (the callee relies on the extension), the call passes it [%s]", i, de, cae)
+		}
+	}
+	return ""
+}
+
+func typeLeaves(t *Type, out []string) []string {
+	switch {
+	case t.Vec != "":
+		return append(out, t.Vec)
+	case t.Kind == TStruct:
+		for _, e := range t.Elems {
+			out = typeLeaves(e, out)
+		}
+	case t.Kind == TArray:
+		for i := 0; i < t.N; i++ {
+			out = typeLeaves(t.Elems[0], out)
+		}
+	case t.Kind == TVoid:
+	default:
+		out = append(out, t.String())
+	}
+	return out
+}
+
+func sameLeaves(a, b *Type) bool {
+	if a.VarArg || b.VarArg || len(a.Elems) == 0 && len(b.Elems) == 0 && a.Ret.String() == b.Ret.String() {
+		return false
+	}
+	if strings.Join(typeLeaves(a.Ret, nil), ",") != strings.Join(typeLeaves(b.Ret, nil), ",") {
+		return false
+	}
+	var la, lb []string
+	for _, e := range a.Elems {
+		la = typeLeaves(e, la)
+	}
+	for _, e := range b.Elems {
+		lb = typeLeaves(e, lb)
+	}
+	return strings.Join(la, ",") == strings.Join(lb, ",")
+}
+
+func flattenVal(v Value, t *Type, out []Value) []Value {
+	switch {
+	case t.Vec == "" && t.Kind == TStruct:
+		a := v.(Agg)
+		for i, e := range t.Elems {
+			out = flattenVal(a[i], e, out)
+		}
+	case t.Vec == "" && t.Kind == TArray:
+		a := v.(Agg)
+		for i := 0; i < t.N; i++ {
+			out = flattenVal(a[i], t.Elems[0], out)
+		}
+	case t.Kind == TVoid:
+	default:
+		out = append(out, v)
+	}
+	return out
+}
+
+func buildVal(t *Type, lv *[]Value) Value {
+	switch {
+	case t.Vec == "" && t.Kind == TStruct:
+		a := make(Agg, len(t.Elems))
+		for i, e := range t.Elems {
+			a[i] = buildVal(e, lv)
+		}
+		return a
+	case t.Vec == "" && t.Kind == TArray:
+		a := make(Agg, t.N)
+		for i := range a {
+			a[i] = buildVal(t.Elems[0], lv)
+		}
+		return a
+	case t.Kind == TVoid:
+		return nil
+	}
+	v := (*lv)[0]
+	*lv = (*lv)[1:]
+	return v
+}
+
+func sigString(t *Type) string {
+	var ps []string
+	for _, e := range t.Elems {
+		ps = append(ps, e.String())
+	}
+	return t.Ret.String() + "(" + strings.Join(ps, ";") + ")"
 }
